@@ -82,8 +82,61 @@ def sync_run(sc):
     return rec
 
 
+def daliserver_session(sc):
+    """several commands over ONE connection (multiple_frames_per_connection=True): the fake server answers every
+    request it receives, in order; each caller-visible result must belong to its own command"""
+    from . import drivers, c18, core
+    c18._stubs()
+    import dali.driver.daliserver as DS
+    cmds = [drivers.make_command(k, n) for k, n in sc["unit"]]
+    descs = [drivers.describe_command(c) for c in cmds]
+    wire, replies = [], []
+    outcomes = sc["outcomes"]
+
+    class Sock:
+        def send(self, data):
+            frame = int.from_bytes(bytes(data[2:]), "big")
+            k = len(wire)
+            # the outcome belongs to the command this request carries (same frame -> same command instance)
+            ix = next(i for i, d in enumerate(descs) if d["frame"] == frame)
+            o = outcomes[ix % len(outcomes)] if descs[ix]["query"] else ["none", 0]
+            wire.append({"task": "S", "frame": frame, "bits": 8 * (len(data) - 2), "twice": descs[ix]["twice"], "outcome": o, "cmd": ix})
+            st = {"none": 0, "val": 1, "err": 255}[o[0]]
+            replies.append(bytes([2, st, o[1] if o[0] == "val" else 0, 0]))
+            return len(data)
+
+        def recv(self, n):
+            return replies.pop(0) if replies else b"\x02\xff\x00\x00"
+
+        def close(self):
+            pass
+    DS.socket.create_connection = lambda target: Sock()
+    results, exc = [], "none"
+    try:
+        with DS.DaliServer(multiple_frames_per_connection=True) as d:
+            for c in cmds:
+                results.append(drivers.describe_result(d.send(c)))
+    except Exception as e:  # noqa
+        exc = type(e).__name__
+    # one wire entry per command for the judge (a send-twice command is two identical requests)
+    seen, wire1 = set(), []
+    for w in wire:
+        if w["cmd"] not in seen:
+            seen.add(w["cmd"])
+            wire1.append({k: v for k, v in w.items() if k != "cmd"})
+    return {"driver": "daliserver", "wire": wire1,
+            "callers": [{"name": "S", "mode": "send", "unit": [dict(d, dt=0) for d in descs], "results": results, "exc": exc,
+                         "closed": -1, "done": 1, "exceptions": 1}],
+            "lock_free": 1, "out": {"hung": [], "setup_exc": "none"}, "info": {"loop_exc": "none"}, "now": 0, "iterations": 0,
+            "nwrites": len(wire)}
+
+
 def sync_scenarios():
     scs = []
+    for unit in ([["cfg", 1], ["q16", 2], ["st16", 3]], [["q16", 1], ["cfg", 2], ["cfg", 3], ["yn16", 4]],
+                 [["c24", 1], ["q24", 2]], [["dapc", 1], ["q16", 2], ["q16", 3]]):
+        for outcomes in ([["val", 5], ["val", 77], ["val", 200], ["val", 9]], [["none", 0], ["val", 1], ["err", 0], ["val", 2]]):
+            scs.append({"driver": "daliserver", "unit": unit, "outcomes": outcomes, "sync": 2, "tag": "sync-session"})
     for drv in ("daliserver", "atx"):
         for key in ("dapc", "q16", "yn16", "st16", "cfg", "qdt6", "q24", "c24", "i24"):
             for outcome in (["none", 0], ["val", 0], ["val", 1], ["val", 0xFE], ["val", 0xFF], ["val", 0x42], ["err", 0]):
